@@ -606,6 +606,13 @@ func (e *Eval) compile(node ast.Node) error {
 		//
 		e.changeOperand(jumpEnd, len(e.instructions))
 
+		// Finally add a "Nop" instruction, one that will not
+		// be optimized away - as the other join-points do.
+		//
+		// Without it the END label might not exist, and the
+		// optimizer could fold constants across it.
+		e.emit(code.OpPlaceholder)
+
 	case *ast.SwitchExpression:
 
 		//
